@@ -7,6 +7,13 @@
 // pulls <= need(j); pulls == 0 right after construction; after the end three more Next calls must
 // all report the end (and pull nothing the reference does not need); the iterator, stream and
 // xslices flavours must agree. Reducers are checked for their value only.
+//
+// A library call that does not terminate is decided logically, never by the clock: every callback
+// and every probe source counts its invocations and panics past 200*(n+16) per flavour run
+// (drive.go: arm / tick), which surfaces as a "runaway" violation.
+//
+// Files: ref.go (references), drive.go (drivers and checks), ops.go (one function per one-source
+// combinator), small.go (complete small scope), random.go (larger random inputs, pipelines).
 package main
 
 import (
@@ -45,6 +52,7 @@ func main() {
 		r.Assume("predicates and conversion functions are pure functions of the item")
 		r.Assume("source pulls are compared after capping at len(source)+1: asking an already ended source again when the consumer asks again requests no item and is not counted against laziness")
 		r.Assume("Runs: the consumer drains every inner run before calling Next on the outer, as documented; abandoning a run early is outside the statement (observed, not judged)")
+		r.Assume("non-termination is decided by a call budget, not by time: callbacks and probe sources may be invoked at most 200*(n+16) times per run of one flavour over n items (legitimate runs need a few times n)")
 		r.Assume("parameters inside the documented domain only: chunkSize >= 1, First/Last n >= 0, xslices.Repeat n >= 0")
 
 		W := runtime.GOMAXPROCS(0)
@@ -94,8 +102,8 @@ func main() {
 		})
 		r.Cases("small/equal", N, W, func(c *vkit.Case) { a := newAcc(c); smallEqual(a, sp, c.Index, pairLen); a.flush() })
 
-		nSingle := r.Scale(40000, 600000)
-		nPipe := r.Scale(60000, 900000)
+		nSingle := r.Scale(150000, 600000)
+		nPipe := r.Scale(250000, 900000)
 		// a short sequential prelude: the first non-trivial pipeline over a short input is the sample
 		r.Cases("rand/pipe-short", 64, 1, func(c *vkit.Case) {
 			a := newAcc(c)
